@@ -86,7 +86,9 @@ func drawStream(t *rapid.T) cli.StreamDef {
 		sd.Lead.Tracks = append(sd.Lead.Tracks, a)
 	}
 	if sd.Container == "mpegts" && rapid.IntRange(0, 3).Draw(t, "unsupported") == 0 {
-		sd.Lead.Tracks = append(sd.Lead.Tracks, cli.TrackDef{Codec: "tsopus", TimeScale: 90000, SampleDur: 1800})
+		// tracks of codecs the client has no type for: they must be ignored
+		x := rapid.SampledFrom([]string{"tsopus", "tsopus", "tsac3", "tsmp4v", "tsmp1v", "tsh265"}).Draw(t, "xcodec")
+		sd.Lead.Tracks = append(sd.Lead.Tracks, cli.TrackDef{Codec: x, TimeScale: 90000, SampleDur: 1800})
 	}
 	if rapid.Bool().Draw(t, "audioFirst") && len(sd.Lead.Tracks) > 1 && sd.Container == "fmp4" {
 		// video not first in the init
@@ -396,6 +398,11 @@ func execC10(sc c10Scenario) core.Outcome {
 	}
 	if sc.Stream.Lead.ByteRange {
 		o.Labels = append(o.Labels, "byte-range")
+	}
+	for _, tr := range sc.Stream.Lead.Tracks {
+		if !cli.SupportedByClient(sc.Stream.Container, tr.Codec) {
+			o.Labels = append(o.Labels, "unsupported-track:"+tr.Codec)
+		}
 	}
 	if r.StartErr != nil {
 		return fail(o, "Start failed: %v", r.StartErr)
